@@ -66,6 +66,7 @@ pub struct Ctx {
     pub labels: BTreeSet<String>,
     pub facts: BTreeMap<String, u64>,
     pub skips: BTreeMap<String, u64>,
+    pub maxima: BTreeMap<String, u64>,
     pub nontrivial: bool,
     pub hash: Option<u64>,
 }
@@ -79,6 +80,10 @@ impl Ctx {
     }
     pub fn skip(&mut self, k: &str) {
         *self.skips.entry(k.to_string()).or_insert(0) += 1;
+    }
+    pub fn max(&mut self, k: &str, v: u64) {
+        let e = self.maxima.entry(k.to_string()).or_insert(0);
+        *e = (*e).max(v);
     }
 }
 
@@ -266,6 +271,8 @@ pub struct Stats {
     pub facts: BTreeMap<String, u64>,
     pub skips: BTreeMap<String, u64>,
     pub known_hits: BTreeMap<String, u64>,
+    #[serde(default)]
+    pub maxima: BTreeMap<String, u64>,
     pub samples: Vec<Value>,
     pub failures: Vec<Failure>,
     pub infra_error: Option<String>,
@@ -290,6 +297,10 @@ impl Stats {
         }
         for (k, n) in &ctx.skips {
             *self.skips.entry(k.clone()).or_insert(0) += n;
+        }
+        for (k, n) in &ctx.maxima {
+            let e = self.maxima.entry(k.clone()).or_insert(0);
+            *e = (*e).max(*n);
         }
         if ctx.nontrivial {
             if let Some(h) = ctx.hash {
@@ -317,6 +328,10 @@ impl Stats {
         }
         for (k, n) in o.known_hits {
             *self.known_hits.entry(k).or_insert(0) += n;
+        }
+        for (k, n) in o.maxima {
+            let e = self.maxima.entry(k).or_insert(0);
+            *e = (*e).max(n);
         }
         for s in o.samples {
             if self.samples.len() < 4 {
@@ -423,6 +438,8 @@ pub fn run_shard(
     };
     let mut runner = TestRunner::new(config);
     let strategy = vec(any::<u32>(), 0..=e.choice_len);
+    // triage aid: VERIF_SURVEY=1 tallies violation signatures instead of stopping at the first
+    let survey = std::env::var("VERIF_SURVEY").map(|v| v == "1").unwrap_or(false);
     let stats_cell = std::cell::RefCell::new(&mut stats);
     let failed = std::cell::Cell::new(false);
     let result = runner.run(&strategy, |choices| {
@@ -451,6 +468,7 @@ pub fn run_shard(
         for v in &out.violations {
             match match_finding(&findings, e.id, v) {
                 Some(f) => hits.push(f.id.clone()),
+                None if survey => hits.push(format!("SURVEY {:?}", v.sig)),
                 None => unknown = true,
             }
         }
@@ -824,6 +842,7 @@ pub fn run_check(e: &Entry, tier: Tier, seed: u64) -> RunOutcome {
             "classes": total.labels,
             "checked_facts": total.facts,
             "skipped": total.skips,
+            "maxima": total.maxima,
             "known_finding_hits": total.known_hits,
             "shards": shards,
         },
